@@ -7,6 +7,7 @@ package muc
 import (
 	"context"
 	"encoding/xml"
+	"errors"
 
 	"mellium.im/xmlstream"
 	"mellium.im/xmpp"
@@ -34,6 +35,11 @@ type Channel struct {
 
 	join   chan joinCtx
 	depart chan struct{}
+
+	// joined is true from the moment the self-presence has been handed to a
+	// pending join until the unavailable self-presence has been processed.
+	// It is guarded by client.managedM.
+	joined bool
 }
 
 // Addr returns the address of the channel.
@@ -50,8 +56,7 @@ func (c *Channel) Me() jid.JID {
 func (c *Channel) Joined() bool {
 	c.client.managedM.Lock()
 	defer c.client.managedM.Unlock()
-	_, ok := c.client.managed[c.addr.Bare().String()]
-	return ok
+	return c.joined
 }
 
 // Leave exits the MUC, causing Joined to begin to return false.
@@ -122,6 +127,15 @@ func (c *Channel) LeavePresence(ctx context.Context, status string, p stanza.Pre
 	verifYield("leave.wait", p.ID)
 	select {
 	case err := <-errChan:
+		if errors.As(err, &stanza.Error{}) {
+			// The room refused the request, we are not an occupant.
+			c.client.managedM.Lock()
+			c.joined = false
+			if c.client.managed[c.addr.String()] == c {
+				delete(c.client.managed, c.addr.String())
+			}
+			c.client.managedM.Unlock()
+		}
 		return err
 	case <-c.depart:
 	case <-ctx.Done():
